@@ -110,6 +110,43 @@ def gen_structures(ctx, n, with_sbc):
     return cases
 
 
+def layered_structures(n, id0):
+    """Radii-SENSITIVE structures for the SBC consumer: square nets of a heavy p-block element with large-vdW spacer atoms in the
+    hollow sites between the nets, the net-spacer distance placed between (cov_A + cov_B + bond_threshold) and
+    (vdw_A + vdw_B + bond_threshold): with covalent radii the nets are isolated sheets, with van der Waals radii the spacers
+    bridge them, so the clustering (and the finder's prototype-cell validation) depends on which radii are in force.
+    Deterministic enumeration (no PRNG): member k is a pure function of k."""
+    from ase.data import covalent_radii
+    from ase.data.vdw_alvarez import vdw_radii
+    import math
+    nets = [84, 52, 34, 83, 53, 82, 51]
+    spacers = [36, 54, 18, 55, 37]
+    out = []
+    k = 0
+    while len(out) < n and k < 10 * n + 70:
+        A, B = nets[k % len(nets)], spacers[(k // len(nets)) % len(spacers)]
+        a = [3.35, 3.0, 3.6][(k // 35) % 3]
+        frac = [0.5, 0.25, 0.75][(k // 7) % 3]
+        k += 1
+        vA = float(vdw_radii[A]) if not math.isnan(float(vdw_radii[A])) else float(covalent_radii[A])
+        vB = float(vdw_radii[B]) if not math.isnan(float(vdw_radii[B])) else float(covalent_radii[B])
+        lo = float(covalent_radii[A] + covalent_radii[B]) + 0.75
+        hi = vA + vB + 0.75
+        d = lo + frac * (hi - lo)
+        if d * d <= a * a / 2 + 0.04:
+            continue
+        c = 2 * math.sqrt(d * d - a * a / 2)
+        nums, pos = [], []
+        for ix in range(3):
+            for iy in range(3):
+                for iz in range(2):
+                    nums += [A, B]
+                    pos += [[ix * a, iy * a, iz * c], [(ix + 0.5) * a, (iy + 0.5) * a, (iz + 0.5) * c]]
+        out.append({"id": id0 + len(out), "numbers": nums, "positions": pos, "cell": [[3 * a, 0, 0], [0, 3 * a, 0], [0, 0, 2 * c]],
+                    "pbc": [True, True, True], "thr": 0.65, "presets": PRESETS, "sbc": True, "family": "layered:%d-%d a=%.2f f=%.2f" % (A, B, a, frac)})
+    return out
+
+
 def run(ctx):
     ctx.add_trusted("translator/gen_radii.py + pyast.py (ast-based, fail-closed)",
                     "reference ('documented') radii tables: ase.data.covalent_radii, ase.data.vdw_alvarez.vdw_radii, re-read on every run",
@@ -149,6 +186,8 @@ def run(ctx):
     nstruct = 40 if ctx.tier == "quick" else 400
     nsbc = 4 if ctx.tier == "quick" else 40
     cases = gen_structures(ctx, nstruct, nsbc)
+    # radii-sensitive layered structures through SBC (more of them when an obligation is broken: search for a failing input)
+    cases += layered_structures((24 if broken else 6) if ctx.tier == "quick" else 60, len(cases))
     chunks = [cases[i::C.NCPU] for i in range(C.NCPU)]
     chunks = [c for c in chunks if c]
     outs = C.impl_run_parallel("c19_impl", [{"consumers": c} for c in chunks])
@@ -175,7 +214,7 @@ def run(ctx):
                             "decimal literals of the reference tables (non-trivial: the 309 pairs with Z in 1..103); plus random "
                             "structures (1-10 atoms, elements with and without vdW radius, random pbc) comparing "
                             "get_dimensionality/SBC with a preset against the same numbers as an array (non-trivial: dimensionality defined)")
-    ctx.coverage["input_distribution"] = {"structures": len(cases), "with_sbc": nsbc,
+    ctx.coverage["input_distribution"] = {"structures": len(cases), "with_sbc": nsbc, "radii_sensitive_layered_structures_through_SBC": sum(1 for c in cases if c.get("family", "").startswith("layered")),
                                           "with_missing_vdw_element": sum(1 for c in cases if any(z in (61, 84, 85, 86, 87, 88, 100, 101, 102, 103) for z in c["numbers"]))}
 
     known = C.load_known("C19")
@@ -215,7 +254,7 @@ def replay(ctx, rep):
         o = C.impl_run("c19_impl", {"consumers": [rep["case"]]})
         for p in PRESETS:
             r = o["consumers"][0].get(p, {})
-            if "error" in r or r.get("dim_preset") != r.get("dim_array") or not r.get("clusters_equal", True):
+            if "error" in r or r.get("dim_preset") != r.get("dim_array") or not r.get("clusters_equal", True) or r.get("sbc_equal") is False:
                 ctx.violation(rep, found_input=True)
                 return
         print("replay: preset and array agree on this input now")
